@@ -1,11 +1,24 @@
-(* C15: (c15 expand (("prefix" "ns") ...) "iri") -> ("expanded") | () *)
+(* C15: (c15 expand (("prefix" "ns") ...) "iri") -> ("expanded") | ()
+        (c15 verdict (("prefix" "ns") ...) <ynode> <graph>) -> (ok ("level|name|focus" ...)) | error | unsupported *)
 open Sexp
 open Model
 open Glue_sem
 
+let rec ynode = function
+  | L [A "scalar"; t; v] -> YScalar (sl t, sl v)
+  | L (A "map" :: es) -> YMap (List.map (function L [k; v] -> (sl k, ynode v) | _ -> raise (Parse_error "entry")) es)
+  | L (A "seq" :: is) -> YSeq (List.map ynode is)
+  | _ -> raise (Parse_error "ynode")
+let ctx l = List.map (function L [p; n] -> (sl p, sl n) | _ -> raise (Parse_error "ctx")) l
+let level_name = function Violation -> "violation" | Warning -> "warning" | Info -> "info"
+
 let handle (args : t list) : t =
   match args with
-  | [A "expand"; L ctx; iri] ->
-      let ctx = List.map (function L [p; n] -> (sl p, sl n) | _ -> raise (Parse_error "ctx")) ctx in
-      (match expand_compact ctx (sl iri) with Some s -> L [of_cl s] | None -> L [])
+  | [A "expand"; L c; iri] ->
+      (match expand_compact (ctx c) (sl iri) with Some s -> L [of_cl s] | None -> L [])
+  | [A "verdict"; L c; y; g] ->
+      (match verdict (ctx c) (ynode y) (graph g) with
+       | POk l -> L [A "ok"; L (List.map (fun s -> Sexp.S s) (List.sort_uniq compare (List.map (fun ((lv, n), f) -> level_name lv ^ "|" ^ string_of_chars n ^ "|" ^ string_of_chars f) l)))]
+       | PError -> A "error"
+       | PUnsupported -> A "unsupported")
   | _ -> raise (Parse_error "c15 op")
